@@ -355,6 +355,140 @@ def run_env_property(ctx, theorem_file):
     return 1 if ctx.violations else 0
 
 
+def aux_job(ctx, cmd, fail_prefix, stats_prefix, cov_key, what):
+    """A harness job that decides by itself and prints '<FAIL> text' lines and one '<STATS> json' line."""
+    import subprocess
+    out = subprocess.run(cmd, env=common.ENV, stdout=subprocess.PIPE, stderr=subprocess.DEVNULL, text=True).stdout
+    fails = [l[len(fail_prefix) + 1:] for l in out.splitlines() if l.startswith(fail_prefix + " ")]
+    stats = [l[len(stats_prefix) + 1:] for l in out.splitlines() if l.startswith(stats_prefix + " ")]
+    if not stats:
+        raise CheckFailure("harness job did not finish: " + " ".join(cmd), out[-2000:])
+    try:
+        js = json.loads(stats[0])
+    except Exception:
+        js = {"raw": stats[0][:2000]}
+    ctx.coverage[cov_key] = {"what": what, "result": js}
+    for f in fails[:2]:
+        rp = ctx.write_replay({"kind": "failing-input", "what": f, "how_to_replay": " ".join(cmd)})
+        ctx.violations.append((rp, False))
+    return fails
+
+
+def agent_jobs(pid, tier, seed):
+    q = tier == "quick"
+    n = (lambda a, b: a if q else b)
+
+    def aj(name, s, count, steps, **kw):
+        args = ["agents-random", "--seed", str(s), "--count", str(count), "--steps", str(steps)]
+        for k, v in kw.items():
+            args += ["--" + k, str(v)]
+        return {"name": name, "args": args}
+    if pid == "C16":
+        return [aj("agents-random-kind", seed, n(300, 6000), n(25, 200), kinds="0"),
+                aj("agents-noise-kind", seed + 1, n(300, 6000), n(25, 200), kinds="1"),
+                aj("agents-momentum-kind", seed + 2, n(300, 6000), n(25, 200), kinds="2"),
+                aj("agents-mixed", seed + 3, n(300, 6000), n(25, 100), kinds="0,1,2")]
+    if pid == "C17":
+        return [aj("momentum-imposed-paths", seed, n(500, 10000), n(14, 40), kinds="2", paths=1),
+                aj("momentum-free", seed + 1, n(200, 4000), n(20, 100), kinds="2")]
+    if pid == "C09":
+        return [aj("agents-mixed", seed, n(400, 8000), n(30, 200), kinds="0,1,2")]
+    return []
+
+
+RULE_AGENTS = ("scripts = seeded runs of 1-3 built-in agent groups (random / noise / momentum, single-asset Env and 2-asset MarketEnv; tick 1..10, "
+               "probabilities in {0, (0,1), 1, 1.5}, sigma in {0.1, 1, 10}, empty / one-sided / two-sided starting books or harness-imposed price paths), "
+               "each `update` and each `step` executed on the rebuilt crates with a draw-counting generator and on the extracted model (exact generator, "
+               "Flocq binary64 rounding, log-normal samples from an oracle table produced by the real rand_distr on the same stream, libm tanh); every "
+               "observable incl. the next raw draw compared after every call. non-trivial = a script with a step that carried >= 2 instructions.")
+
+
+def classify_agent(pid, r):
+    k = r[0]
+    if k == 1:
+        return "concrete" if r[1] == 0 else "tie"      # the implementation aborted where the model does not
+    if k == 5:
+        return "concrete" if (r[1] == 16 and pid == "C16") else None
+    if k in (0, 2, 3, 6):
+        return "tie"
+    if k == 7:
+        return "tie"
+    return None
+
+
+def run_agent_property(ctx, theorem_file, extra=None):
+    pid = ctx.pid
+    if os.environ.get("VERIF_NO_PROOF") != "1":
+        common.proof_obligations(ctx, theorem_file)
+    reports, stats = common.run_jobs(ctx, agent_jobs(pid, ctx.tier, ctx.seed))
+    common.coverage_from_stats(ctx, stats, RULE_AGENTS)
+    for k in ("operation_mix", "final_order_status_mix", "trades", "price_errors"):
+        ctx.coverage.pop(k, None)
+    ctx.coverage["reports_total"] = len(reports)
+    concrete_found = False
+    if extra:
+        concrete_found = bool(extra(ctx))
+    own = [(classify_agent(pid, r["r"]), r) for r in reports]
+    concrete = [r for c, r in own if c == "concrete"]
+    tie = [r for c, r in own if c == "tie"]
+    import subprocess
+    emitted = 0
+    for group, nofail in ((concrete, False), (tie, True)):
+        if nofail and (concrete or concrete_found):
+            break
+        group.sort(key=lambda r: r["op"])
+        for r in group[:1]:
+            out = subprocess.run([common.DRIVE] + r["job"]["args"] + ["--only", str(r["script"])], env=common.ENV,
+                                 stdout=subprocess.PIPE, text=True).stdout
+            lines = [l for l in out.splitlines() if l[:2] in ("M ", "G ", "O ", "F ")]
+            rp = ctx.write_replay({
+                "kind": "failing-input" if not nofail else "correspondence-broken",
+                "what": (("the implementation aborted (panic) where the model of the agents does not" if r["r"][0] == 1 else describe_env(r["r"])) if not nofail else describe_env(r["r"])),
+                "broken": None if not nofail else "correspondence impl-vs-model of the agents (Model/Agents.v via Spec.EnvRunner.es_step_fn) behind coq/%s" % theorem_file,
+                "job": r["job"]["name"], "script_id": r["script"], "op_index": r["op"], "script": lines[:400],
+                "regenerate": " ".join([common.DRIVE] + r["job"]["args"] + ["--only", str(r["script"]), "|", common.RUNNER])})
+            ctx.violations.append((rp, nofail))
+            emitted += 1
+    return 1 if ctx.violations else 0
+
+
+def run_c17(ctx):
+    def extra(c):
+        return aux_job(c, [common.DRIVE, "momentum-mirror", "--seed", str(c.seed), "--count", "600" if c.tier == "quick" else "20000"],
+                       "MIRRORFAIL", "MIRRORSTATS", "mirrored_paths",
+                       "pairs of runs on a harness-imposed mid-price path and its mirror image with one seed: the order flow must be mirrored "
+                       "(buys <-> sells, same sizes, same steps); direction must follow the sign of M recomputed from the path; at saturated demand "
+                       "every trader submits one limit and one market order")
+    return run_agent_property(ctx, "Properties/C17.v", extra)
+
+
+def run_c09(ctx):
+    def extra(c):
+        return aux_job(c, [common.DRIVE, "determinism", "--seed", str(c.seed), "--count", "60" if c.tier == "quick" else "2000"],
+                       "DETFAIL", "DETSTATS", "runner_determinism",
+                       "sim_runner / market_sim_runner on derive-macro agent sets (random+noise+momentum, nested sets): twice in one process, in a "
+                       "separate OS process, with and without the progress bar, and as a hand-written loop over Xoroshiro128StarStar::seed_from_u64(seed); "
+                       "complete outputs (orders, trades, level-2 histories, per-step volumes) compared by digest; a different seed must change the output "
+                       "(measured, not proved)")
+    return run_agent_property(ctx, "Properties/C09.v", extra)
+
+
+def run_c20(ctx):
+    if os.environ.get("VERIF_NO_PROOF") != "1":
+        common.proof_obligations(ctx, "Properties/C20.v")
+    fails = aux_job(ctx, [common.DRIVE, "macros", "--seed", str(ctx.seed), "--rounds", "6" if ctx.tier == "quick" else "60"],
+                    "MACROFAIL", "MACROSTATS", "derive_macros_dynamic",
+                    "12 struct shapes (1..11 flattened members; names out of alphabetical order and with a leading underscore; repeated types; nested "
+                    "derived sets) for both derive macros: probe agents log (tag, first draw, orders seen); derived update compared call-by-call and "
+                    "draw-by-draw with the hand-written sequence, final environment and generator state included")
+    st = ctx.coverage["derive_macros_dynamic"]["result"]
+    ctx.coverage.update({"evaluations": st.get("calls_compared", 0), "distinct_nontrivial": st.get("shapes", 0),
+                         "rule": "calls of probe agents compared between derived and hand-written sets; distinct = struct shapes",
+                         "samples": ["D8{h,_g,f,nested:D3{maker,_hedger,taker},d,c,again:D2{zeta,alpha},a}", "M4{maker,taker,inner:M2{zeta,alpha},arbitrageur}"],
+                         "traces_validated_against_impl": st.get("shapes", 0)})
+    return 1 if ctx.violations else 0
+
+
 def run_c15(ctx):
     import subprocess
     rc = run_env_property(ctx, "Properties/C15.v")
@@ -416,6 +550,10 @@ PROPS = {
     "C11": lambda ctx: run_env_property(ctx, "Properties/C11.v"),
     "C14": lambda ctx: run_env_property(ctx, "Properties/C14.v"),
     "C15": run_c15,
+    "C09": run_c09,
+    "C16": lambda ctx: run_agent_property(ctx, "Properties/C16.v"),
+    "C17": run_c17,
+    "C20": run_c20,
     "C12": lambda ctx: run_book_property(ctx, "Properties/C12.v"),
     "C13": lambda ctx: run_book_property(ctx, "Properties/C13.v"),
 }
@@ -423,3 +561,27 @@ PROPS = {
 
 def run_property(ctx):
     return PROPS[ctx.pid](ctx)
+
+
+def search_after_failure(ctx):
+    """Called when the property's theorem / generated table / build no longer checks: look for a concrete
+    failing input on the implementation. Returns True when one was found (and recorded in ctx.violations)."""
+    pid = ctx.pid
+    before = len(ctx.violations)
+    try:
+        common.build_harness()
+        # the runner may still be buildable (model files unchanged); try the full check without the proof step
+        try:
+            common.build_coq(None if False else "__none__")
+            common.build_runner()
+            PROPS[pid](ctx)
+        except CheckFailure:
+            if pid == "C20":
+                run_c20(ctx)
+            elif pid == "C19" and "C19" in PROPS:
+                PROPS["C19"](ctx)
+    except Exception:
+        pass
+    concrete = [v for v in ctx.violations[before:] if not v[1]]
+    ctx.violations = ctx.violations[:before] + concrete
+    return bool(concrete)
